@@ -147,7 +147,7 @@ NewSub(c, f) ==
 
 \* every member the group has after the step unsubscribed during the step (and subscribed again): the group was empty
 \* in between, what it is owed starts afresh
-Regrouped(f) == \A c \in LiveMembers(R', f) : R'.unsubs[c][f] # R.unsubs[c][f]
+Regrouped(f) == \A c \in LiveMembers(R', f) : <<c, f>> \in R'.unsubNow
 \* some member's connection is the same before and after the step (a connection that replaces another one of the same
 \* client id is a member that left and one that joined)
 Continued(f) == \E c \in LiveMembers(R, f) \cap LiveMembers(R', f) : ConnNet(R, c) = ConnNet(R', c)
@@ -263,7 +263,7 @@ REvent ==
     /\ chan # <<>> /\ ~R.panicked
     /\ chan' = Tail(chan)
     /\ LET e == Head(chan)
-           s == St(R, nets)
+           s == St([R EXCEPT !.unsubNow = {}], nets)
            results == CASE e.kind = "Connect"     -> {EvConnect(s, e.arg)}
                         [] e.kind = "DeviceData"  -> EvDeviceData(s, e.id)
                         [] e.kind = "Disconnect"  -> {EvDisconnect(s, e.id)}
@@ -274,7 +274,7 @@ REvent ==
 
 RConsume ==
     /\ R.readyq # <<>> /\ ~R.panicked
-    /\ \E x \in Consume(St(R, nets)) : R' = x.r /\ nets' = x.nets
+    /\ \E x \in Consume(St([R EXCEPT !.unsubNow = {}], nets)) : R' = x.r /\ nets' = x.nets
     /\ UNCHANGED chan
     /\ GhostRouterStep
 
